@@ -30,7 +30,7 @@ Failing(e) ==
        Cl(P(e, "C10.topK: missing only if k others are at least as frequent up to the sketch error"),
           \A x \in seen \ res : Cardinality({y \in Elems \ {x} : gp[y] >= gp[x] - EE}) >= KK) \cup
        Cl(P(e, "C19.isEmpty"), e.empty_post <=> (seen = {})) \cup
-       Cl("C19.clone", e.twin_ok))
+       Cl("C19.clone", e.twin_ok) \cup LockStepClause(e))
 Init == PInit
 Next == PNext(Failing)
 Spec == Init /\ [][Next]_<<l, h>>
